@@ -287,10 +287,24 @@ func c08G6Deep(L int) {
 		rt.Reach("end")
 		return
 	}
+	// the optional ">>graph6<<" prefix is not part of the data (formats.txt)
+	body := s
+	const prefix = ">>graph6<<"
+	if len(s) >= len(prefix) {
+		is := true
+		for k := 0; k < len(prefix) && is; k++ {
+			if s[k] != prefix[k] {
+				is = false
+			}
+		}
+		if is {
+			body = s[len(prefix):]
+		}
+	}
 	n := 0
-	if l > 0 {
+	if len(body) > 0 {
 		var ok bool
-		n, _, ok = refDeclaredN(s)
+		n, _, ok = refDeclaredN(body)
 		rt.Check(ok, "Graph6Decode succeeded on an incomplete size header")
 		n = rt.Concrete(n)
 	}
